@@ -746,3 +746,208 @@ Theorem port_beyond_circuit_old_code (R : cring) :
 Proof. split; [vm_compute; reflexivity|]. split.
   - intros p x Hp Hx. vm_compute in Hp. destruct Hp as [<-|[]]. simpl in Hx. intuition lia.
   - intros H. apply within_b_of in H. vm_compute in H. discriminate. Qed.
+
+(* ------------------------------------------------------------------ unavailable modes: every cause x every mapping form *)
+(* why a mode of the left-hand processor cannot take a plug *)
+Inductive unavailable {R : cring} (e : exp R) (k : Z) : Prop :=
+| UNegative : (k < 0)%Z -> unavailable e k
+| UBeyond : (0 <= k)%Z -> csize e <= Z.to_nat k -> unavailable e k
+| UHeralded : (0 <= k)%Z -> nth (Z.to_nat k) (e_types e) Classical = HeraldT -> unavailable e k
+| UClosed : (0 <= k)%Z -> nth (Z.to_nat k) (e_types e) Classical = Classical -> unavailable e k.
+
+Lemma unavailable_iff {R : cring} (e : exp R) k : connectible e k = false <-> unavailable e k.
+Proof. unfold connectible. split.
+  - intros H. destruct (0 <=? k)%Z eqn:E0.
+    + apply Z.leb_le in E0. destruct (Z.to_nat k <? csize e) eqn:E1.
+      * simpl in H. destruct (nth (Z.to_nat k) (e_types e) Classical) eqn:Et; try discriminate.
+        apply UHeralded; auto. apply UClosed; auto.
+      * apply Nat.ltb_ge in E1. apply UBeyond; auto.
+    + apply Z.leb_gt in E0. apply UNegative; auto.
+  - intros [H|H0 H|H0 H|H0 H].
+    + replace (0 <=? k)%Z with false by (symmetry; apply Z.leb_gt; exact H). reflexivity.
+    + replace (Z.to_nat k <? csize e) with false by (symmetry; apply Nat.ltb_ge; exact H).
+      rewrite andb_false_r. reflexivity.
+    + rewrite H. apply andb_false_r.
+    + rewrite H. apply andb_false_r. Qed.
+
+Lemma consistency_rejects_unavailable {R : cring} (e : exp R) n am k v :
+  In (k, v) am -> unavailable e k -> check_consistency n (connectible e) am = false.
+Proof. intros Hin Hu. destruct (check_consistency n (connectible e) am) eqn:E; auto.
+  apply check_consistency_iff in E as [_ [E _]]. destruct (E k v Hin) as [_ Hc].
+  apply unavailable_iff in Hu. congruence. Qed.
+
+(* keys of the resolved dictionary, per mapping form *)
+Lemma dset_keys d k v k' : In k' (map fst (dset d k v)) <-> k' = k \/ In k' (map fst d).
+Proof. induction d as [|[a b] r IH]; simpl. intuition.
+  destruct (a =? k)%Z eqn:E; simpl.
+  - apply Z.eqb_eq in E. subst. intuition.
+  - rewrite IH. intuition. Qed.
+Lemma fold_dset_keys (l : list (Z * nat)) : forall acc k',
+  In k' (map fst (fold_left (fun acc kv => dset acc (fst kv) (snd kv)) l acc)) <->
+  In k' (map fst l) \/ In k' (map fst acc).
+Proof. induction l as [|[a b] r IH]; intros acc k'; simpl. intuition.
+  rewrite IH, dset_keys. simpl. intuition. Qed.
+Lemma in_keys_pair {A B} (m : list (A * B)) k : In k (map fst m) -> exists v, In (k, v) m.
+Proof. intros H. apply in_map_iff in H as [[a b] [E Hin]]. simpl in E. subst. eauto. Qed.
+
+Lemma resolve_list_keys cf rc n rmodes ln rn l am x :
+  resolve_map cf rc n rmodes ln rn (MList l) = Some am -> In x l -> exists v, In (x, v) am.
+Proof. simpl. destruct (length l =? length rmodes) eqn:E; [|discriminate]. intros H Hx. inversion H; subst.
+  apply in_keys_pair. apply fold_dset_keys. left.
+  apply Nat.eqb_eq in E. clear H. revert rmodes E. induction l as [|a r IH]; intros [|b rm] E; simpl in *; try lia; try tauto.
+  destruct Hx as [->|Hx]; [left; reflexivity | right; apply IH; auto]. Qed.
+
+Lemma resolve_int_keys cf rc n rmodes ln rn b am i :
+  resolve_map cf rc n rmodes ln rn (MInt b) = Some am -> i < n -> exists v, In ((b + Z.of_nat i)%Z, v) am.
+Proof. simpl. intros H Hi. inversion H; subst. clear H. apply in_keys_pair.
+  assert (G : forall l acc, In i l ->
+    In (b + Z.of_nat i)%Z (map fst (fold_left (fun acc i => dset acc (b + Z.of_nat i)%Z (nth i rmodes 0)) l acc)) /\ True).
+  { induction l as [|a r IH]; simpl; intros acc Hin. tauto. split; auto. destruct Hin as [->|Hin].
+    - assert (K : forall l acc, In (b + Z.of_nat i)%Z (map fst acc) ->
+        In (b + Z.of_nat i)%Z (map fst (fold_left (fun acc i => dset acc (b + Z.of_nat i)%Z (nth i rmodes 0)) l acc))).
+      { induction l as [|a' r' IH']; simpl; intros acc' H'; auto. apply IH'. apply dset_keys. auto. }
+      apply K. apply dset_keys. auto.
+    - apply IH. exact Hin. }
+  apply G. apply in_seq. lia. Qed.
+
+Lemma dset_all_keys ks : forall vs acc k',
+  In k' (map fst (dset_all acc ks vs)) -> In k' (map fst acc) \/ In k' (map Z.of_nat ks).
+Proof. induction ks as [|a r IH]; intros [|b vs] acc k'; simpl; auto.
+  intros H. apply IH in H as [H|H]; auto. apply dset_keys in H as [->|H]; auto. Qed.
+Lemma dset_all_keeps ks : forall vs acc k', In k' (map fst acc) -> In k' (map fst (dset_all acc ks vs)).
+Proof. induction ks as [|a r IH]; intros [|b vs] acc k' H; simpl; auto. apply IH. apply dset_keys. auto. Qed.
+Lemma dset_all_adds ks : forall vs acc x, length ks = length vs -> In x ks ->
+  In (Z.of_nat x) (map fst (dset_all acc ks vs)).
+Proof. induction ks as [|a r IH]; intros [|b vs] acc x E Hx; simpl in *; try lia; try tauto.
+  destruct Hx as [->|Hx].
+  - apply dset_all_keeps. apply dset_keys. auto.
+  - apply IH; auto. Qed.
+
+Lemma resolve_dict_keeps n2i rc ln rn items : forall acc am k,
+  resolve_dict n2i rc ln rn items acc = Some am -> In k (map fst acc) -> In k (map fst am).
+Proof. induction items as [|[mk mv] r IH]; simpl; intros acc am k H Hk.
+  - inversion H; subst; auto.
+  - destruct mk as [z|s].
+    + destruct mv; try (eapply IH; eauto; fail). eapply IH; eauto. apply dset_keys. auto.
+    + destruct (port_idx ln s) as [l_idx|]; [|discriminate].
+      destruct (match mv with VInt x => _ | VName t => _ | VList l => _ end) as [r_idx|]; [|discriminate].
+      destruct (length l_idx =? length r_idx); [|discriminate].
+      eapply IH; eauto. apply dset_all_keeps. exact Hk. Qed.
+
+(* an entry int -> int puts its key in the resolved dictionary; an entry by port name puts every mode of the port *)
+Lemma resolve_dict_int_key n2i rc ln rn items : forall acc am x v,
+  resolve_dict n2i rc ln rn items acc = Some am -> In (KInt x, VInt v) items -> In x (map fst am).
+Proof. induction items as [|[mk mv] r IH]; simpl; intros acc am x v H Hin. tauto.
+  destruct Hin as [E|Hin].
+  - inversion E; subst. eapply resolve_dict_keeps; eauto. apply dset_keys. auto.
+  - destruct mk as [z|s].
+    + destruct mv; eapply IH; eauto.
+    + destruct (port_idx ln s) as [l_idx|]; [|discriminate].
+      destruct (match mv with VInt x => _ | VName t => _ | VList l => _ end) as [r_idx|]; [|discriminate].
+      destruct (length l_idx =? length r_idx); [|discriminate]. eapply IH; eauto. Qed.
+Lemma resolve_dict_name_key n2i rc ln rn items : forall acc am s mv l_idx x,
+  resolve_dict n2i rc ln rn items acc = Some am -> In (KName s, mv) items -> port_idx ln s = Some l_idx ->
+  In x l_idx -> In (Z.of_nat x) (map fst am).
+Proof. induction items as [|[mk mv'] r IH]; simpl; intros acc am s mv l_idx x H Hin Hp Hx. tauto.
+  destruct Hin as [E|Hin].
+  - inversion E; subst. rewrite Hp in H.
+    destruct (match mv with VInt x => _ | VName t => _ | VList l => _ end) as [r_idx|]; [|discriminate].
+    destruct (length l_idx =? length r_idx) eqn:El; [|discriminate]. apply Nat.eqb_eq in El.
+    eapply resolve_dict_keeps; eauto. apply dset_all_adds; auto.
+  - destruct mk as [z|s'].
+    + destruct mv'; eapply IH; eauto.
+    + destruct (port_idx ln s') as [l_idx'|]; [|discriminate].
+      destruct (match mv' with VInt x => _ | VName t => _ | VList l => _ end) as [r_idx|]; [|discriminate].
+      destruct (length l_idx' =? length r_idx); [|discriminate]. eapply IH; eauto. Qed.
+
+(* which left modes a mapping names (before resolution), per form; [lnames] = the left output port names *)
+Definition names_mode (lnames : list nat) (n : nat) (mp : mapping) (k : Z) : Prop :=
+  match mp with
+  | MInt b => exists i, i < n /\ k = (b + Z.of_nat i)%Z
+  | MList l => In k l
+  | MDict d => (exists v, In (KInt k, VInt v) d) \/
+               (exists s mv l_idx x, In (KName s, mv) d /\ port_idx lnames s = Some l_idx /\ In x l_idx /\ k = Z.of_nat x)
+  end.
+Lemma resolve_names_mode cf rc n rmodes ln rn mp am k :
+  resolve_map cf rc n rmodes ln rn mp = Some am -> names_mode ln n mp k -> exists v, In (k, v) am.
+Proof. destruct mp as [b|l|d]; simpl names_mode.
+  - intros H [i [Hi ->]]. eapply resolve_int_keys; eauto.
+  - intros H Hk. eapply resolve_list_keys; eauto.
+  - simpl. destruct (type_ok rc d); [|discriminate]. intros H [[v Hin]|[s [mv [l_idx [x [Hin [Hp [Hx ->]]]]]]]].
+    + apply in_keys_pair. eapply resolve_dict_int_key; eauto.
+    + apply in_keys_pair. eapply resolve_dict_name_key; eauto. Qed.
+
+Section Reject.
+Variable R : cring.
+Variable tb : nat -> mat R -> mat R.
+Variable cf : cfg.
+Definition left_names (e : exp R) : list nat :=
+  map (fun o => match o with Some (NUser id) => id | _ => 0 end) (names_of (csize e) (e_out e)).
+
+(* Experiment.add(mapping, component): a mapping of ANY form (offset, list, dict by index or by port / herald name)
+   that names a mode of the left processor which is negative, beyond the circuit, heralded (declared by add_herald or
+   appended by an earlier plug) or closed by a detector is rejected and the processor is left unchanged *)
+Theorem add_comp_rejects_unavailable e mp k Uc keep x :
+  names_mode (left_names e) k mp x -> unavailable e x -> add_comp tb cf e mp k Uc keep = (e, false, None).
+Proof. intros Hn Hu. unfold add_comp. fold (left_names e).
+  destruct (resolve_map cf true k (seq 0 k) (left_names e) [] mp) as [am|] eqn:Er; auto.
+  destruct (resolve_names_mode _ _ _ _ _ _ _ _ _ Er Hn) as [v Hin].
+  rewrite (consistency_rejects_unavailable e k am x v Hin Hu). reflexivity. Qed.
+
+Theorem add_proc_rejects_unavailable e mp r keep x :
+  names_mode (left_names e) (e_moi r) mp x -> unavailable e x -> add_proc tb cf e mp r keep = (e, false, None).
+Proof. intros Hn Hu. unfold add_proc. fold (left_names e).
+  match goal with |- context [resolve_map cf false ?n ?rm ?ln ?rn mp] =>
+    destruct (resolve_map cf false n rm ln rn mp) as [am|] eqn:Er; auto end.
+  destruct (resolve_names_mode _ _ _ _ _ _ _ _ _ Er Hn) as [v Hin].
+  rewrite (consistency_rejects_unavailable e _ am x v Hin Hu). reflexivity. Qed.
+
+(* where heralded modes come from: add_herald marks its mode ... *)
+Lemma set_nth_same {A} (l : list A) i x d : i < length l -> nth i (set_nth l i x) d = x.
+Proof. revert i. induction l as [|a r IH]; intros [|i] H; simpl in *; try lia; auto. apply IH. lia. Qed.
+Lemma set_nth_keeps {A} (l : list A) i j x d : nth j l d = x -> nth j (set_nth l i x) d = x.
+Proof. revert i j. induction l as [|a r IH]; intros [|i] [|j] H; simpl in *; auto. Qed.
+Lemma nth_repeat_in {A} (x d : A) n i : i < n -> nth i (repeat x n) d = x.
+Proof. revert i. induction n as [|n IH]; intros [|i] H; simpl; try lia; auto. apply IH. lia. Qed.
+Theorem add_herald_marks (e e' : exp R) mode ex nm : add_herald e mode ex nm = (e', true) -> mode < length (e_types e) ->
+  nth mode (e_types e') Classical = HeraldT.
+Proof. unfold add_herald, add_herald_int. intros H Hl.
+  destruct ((ex <=? 1) && (mode <? csize e)); [|inversion H].
+  destruct (free (e_in e) [mode] && free (e_out e) [mode]); inversion H; subst. simpl.
+  apply set_nth_same. exact Hl. Qed.
+
+(* ... and every mode appended by the plug of a heralded processor is heralded *)
+Lemma transfer_out_keeps_heralded cons m' ports : forall (st : exp R * bool) j,
+  nth j (e_types (fst st)) Classical = HeraldT ->
+  nth j (e_types (fst (fold_left (transfer_out cons m') ports st))) Classical = HeraldT.
+Proof. induction ports as [|p r IH]; simpl; intros st j H; auto. apply IH.
+  destruct st as [e ok]. unfold transfer_out. destruct ok; auto. destruct (p_kind p).
+  - unfold add_herald_int. destruct (free (e_in e) _ && free (e_out e) _); simpl; auto.
+    apply set_nth_keeps. exact H.
+  - destruct (port_kept cons m' p _ && free (e_out e) _); simpl; auto. Qed.
+Lemma transfer_in_types cons m' ports : forall (e : exp R),
+  e_types (fold_left (transfer_in cons m') ports e) = e_types e.
+Proof. induction ports as [|p r IH]; simpl; intros e; auto. rewrite IH. unfold transfer_in.
+  destruct (port_kept cons m' p _ && free (e_in e) _); reflexivity. Qed.
+
+Theorem add_proc_new_modes_heralded e mp r keep e' seg j :
+  add_proc tb cf e mp r keep = (e', true, seg) -> length (e_types e) = csize e ->
+  csize e <= j < csize e + length (herald_modes r) -> nth j (e_types e') Classical = HeraldT.
+Proof. unfold add_proc. intros H Hl Hj.
+  destruct (resolve_map _ _ _ _ _ _ mp) as [am|]; [|inversion H].
+  destruct (check_consistency _ _ am && ps_allows e am); [|inversion H].
+  set (m := with_heralds (csize e) (to_nmap am) (herald_modes r)) in *.
+  destruct (is_perm (perm_vect m)); [|inversion H].
+  match type of H with context [fold_left (transfer_out _ (filled m)) (e_out r) (?e2, true)] => set (E2 := e2) in * end.
+  assert (H0 : nth j (e_types (fst (E2, true))) Classical = HeraldT).
+  { subst E2. simpl. rewrite app_nth2 by lia. apply nth_repeat_in. lia. }
+  pose proof (transfer_out_keeps_heralded (c_port_consecutive cf) (filled m) (e_out r) (E2, true) j H0) as H1.
+  destruct (fold_left (transfer_out _ (filled m)) (e_out r) (E2, true)) as [e3 [|]]; [|inversion H]. simpl in H1.
+  pose proof (transfer_in_types (c_port_consecutive cf) (filled m) (e_in r) e3) as H2.
+  set (e4 := fold_left (transfer_in _ (filled m)) (e_in r) e3) in *.
+  destruct (e_ps r) as [q|].
+  - destruct (e_ps e4) as [a|].
+    + destruct (independent a _); inversion H; subst; simpl; congruence.
+    + inversion H; subst; simpl; congruence.
+  - inversion H; subst. congruence. Qed.
+End Reject.
